@@ -336,6 +336,11 @@ func (p *cparser) unary() CE {
 		p.next()
 		return &CUn{t.lit, p.unary()}
 	}
+	if t.tok == token.MUL {
+		// pointer dereference *p
+		p.next()
+		return &CUn{"*", p.unary()}
+	}
 	return p.postfix()
 }
 func (p *cparser) postfix() CE {
@@ -400,8 +405,8 @@ func (p *cparser) primary() CE {
 		e := p.expr()
 		p.expect(")")
 		return e
-	case token.MUL, token.LBRACK:
-		// a type literal like *T or []byte used with typeof
+	case token.LBRACK:
+		// a type literal like []byte used with typeof
 		p.i--
 		ty := p.typeText(")", ",", "==", "!=", "&&", "||", "==>")
 		return &CTypeLit{ty}
